@@ -503,6 +503,11 @@ fn string_from_utf8''')]},
     {'name': 'S6 close_upvalues_for_frame dropped while extracting a helper from return_impl', 'prop': 'C06', 'expect': 'S6 / yarel::vm::Vm::return_impl / frames.pop',
      'edits': [(VM, "        let result = self.pop();\n        self.active_fiber_mut().close_upvalues_for_frame();\n", "        let result = self.take_result();\n"),
                (VM, "    fn declare_class_impl(&mut self) {", "    fn take_result(&mut self) -> Value {\n        self.pop()\n    }\n\n    fn declare_class_impl(&mut self) {")]},
+    {'name': 'K4 super takes slot zero of the function being compiled again (regression of fef9c2f)', 'prop': 'C07', 'expect': 'K4 / super_ selects the enclosing method by its kind',
+     'edits': [(COMP, "        let instance_local_name = s\n            .compilers\n            .iter()\n            .rev()\n            .find(|c| c.kind != FunctionKind::Function)\n            .map(|c| c.locals[0].name.clone())\n            .unwrap_or_default();",
+                "        let instance_local_name = s.compiler().locals[0].name.clone();")]},
+    {'name': 'K4 enclosing-method search written with matches!', 'prop': 'C07', 'expect': 'K4 / the predicate accepts',
+     'edits': [(COMP, ".find(|c| c.kind != FunctionKind::Function)", ".find(|c| matches!(c.kind, FunctionKind::Method | FunctionKind::Initialiser))")]},
     # ---- round-3 rules ------------------------------------------------------------------------------
     {'name': 'U6 whole-range slice hands back the receiver', 'prop': 'C13', 'expect': 'U6 / slice_get_item / ObjRange index',
      'edits': [(VM, "                let (begin, end) = r.make_bounded_range(elems_len, kind)?;\n                Ok(IndexResult::Slice(Vec::from(&elements[begin..end])))",
@@ -569,6 +574,8 @@ fn string_from_utf8''')]},
 ]
 
 BENIGN = [
+    {'name': 'enclosing-method search written as a match on the kind', 'prop': 'C07',
+     'edits': [(COMP, ".find(|c| c.kind != FunctionKind::Function)", ".find(|c| matches!(c.kind, FunctionKind::Method | FunctionKind::Initialiser | FunctionKind::StaticMethod | FunctionKind::Script))")]},
     {'name': 'tail of return_impl moved verbatim into a new private helper', 'prop': 'C08',
      'edits': [(VM, "        self.load_frame();\n        self.active_fiber_mut().stack.truncate(prev_stack_size);\n        self.push(result);\n        Ok(None)\n    }\n",
                 "        self.resume_caller(prev_stack_size, result);\n        Ok(None)\n    }\n\n    fn resume_caller(&mut self, prev_stack_size: usize, result: Value) {\n        self.load_frame();\n        self.active_fiber_mut().stack.truncate(prev_stack_size);\n        self.push(result);\n    }\n")]},
